@@ -19,7 +19,10 @@ import z3
 from .model import psum, IntS
 
 import os
-TIMEOUT_MS = int(os.environ.get("QVC_C_TIMEOUT_MS", "20000"))
+TIMEOUT_MS = int(os.environ.get("QVC_C_TIMEOUT_MS", "8000"))
+PROOF_TIMEOUT_MS = int(os.environ.get("QVC_C_PROOF_TIMEOUT_MS", "12000"))   # wall-clock safety only: clean obligations
+# discharge in < 0.2 s, a failing goal comes back as 'unknown' from E-matching at once; the generous limit keeps
+# verdicts from flipping when all cores are busy
 MBQI = os.environ.get("QVC_C_MBQI", "0") == "1"
 
 
@@ -94,51 +97,89 @@ def psum_instances(formulas):
     return out
 
 
+def _size(t):
+    return len(t.sexpr())
+
+
+def _candidates(hyps, goal):
+    gseen, gps, gidx = set(), {}, {}
+    _walk(goal, gseen, gps, gidx)
+    goal_terms = list(gidx.values()) + [t.arg(1) for t in gps.values()]
+    hseen, hps, hidx = set(), {}, {}
+    for f in hyps:
+        _walk(f, hseen, hps, hidx)
+    hyp_terms = sorted(list(hidx.values()) + [t.arg(1) for t in hps.values()], key=_size)
+    out = {}
+    for c in goal_terms:
+        for d in (c, z3.simplify(c - 1), z3.simplify(c + 1)):
+            out.setdefault(d.get_id(), d)
+    inner = list(out.values())[:12]
+    for c in hyp_terms:
+        if len(out) >= 36:
+            break
+        out.setdefault(c.get_id(), c)
+    return list(out.values()), (inner or list(out.values())[:8])
+
+
 def _instantiate(hyps, goal):
-    """replace every top-level (possibly nested / conjunct) ForAll hypothesis by its instances at the ground
-    integer index terms of the query"""
-    seen, ps, idx = set(), {}, {}
-    for f in list(hyps) + [goal]:
-        _walk(f, seen, ps, idx)
-    cands = list(idx.values())
-    for t in ps.values():
-        cands.append(t.arg(1))
-    # de-duplicate, and add neighbours (k-1, k+1 are the usual instantiation points of prefix invariants)
-    uniq = {}
-    for c in cands:
-        uniq[c.get_id()] = c
-    base = list(uniq.values())[:40]
-    ext = dict(uniq)
-    for c in base:
-        for d in (c - 1, c + 1):
-            d = z3.simplify(d)
-            ext[d.get_id()] = d
-    cands = list(ext.values())[:120]
+    """replace every ForAll hypothesis (top level, under a conjunction, or as the consequent of an implication) by
+    its instances at ground integer index terms of the query: all index terms of the goal (and their neighbours
+    t-1, t+1), plus the smallest index terms of the hypotheses.  Inner quantifiers use the goal's terms only."""
+    cands, inner_cands = _candidates(hyps, goal)
 
     def inst(f, depth=0):
         if z3.is_quantifier(f) and f.is_forall():
             nv = f.num_vars()
-            if nv != 1 or depth > 1:
+            if depth > 1:
                 return []
             res = []
-            for c in cands:
-                b = z3.substitute_vars(f.body(), c)
-                res.extend(inst(b, depth + 1))
+            if nv == 1:
+                for c in (cands if depth == 0 else inner_cands):
+                    res.extend(inst(z3.substitute_vars(f.body(), c), depth + 1))
+            elif nv == 2 and depth == 0:
+                for c in inner_cands:
+                    for d in inner_cands:
+                        res.extend(inst(z3.substitute_vars(f.body(), c, d), depth + 2))
             return res
         if z3.is_and(f):
             r = []
             for c in f.children():
                 r.extend(inst(c, depth))
             return r
-        if z3.is_implies(f) and _has_forall(f.arg(1)) and not _has_quant(f.arg(0)):
+        if z3.is_implies(f) and _has_quant(f.arg(1)) and not _has_quant(f.arg(0)):
             return [z3.Implies(f.arg(0), x) for x in inst(f.arg(1), depth)]
         if _has_quant(f):
-            return []         # dropped (sound for the purpose: fewer hypotheses can only make 'sat' easier)
+            return []         # dropped: fewer hypotheses can only make 'sat' easier, never 'unsat'
         return [f]
     out = []
     for h in hyps:
         out.extend(inst(h))
     return out
+
+
+def nonlinear_factors(formulas):
+    """integer constants that occur as a factor of a product of two non-numerals"""
+    seen, out = set(), {}
+    stack = list(formulas)
+    while stack:
+        x = stack.pop()
+        if z3.is_quantifier(x):
+            stack.append(x.body())
+            continue
+        if not z3.is_app(x):
+            continue
+        i = x.get_id()
+        if i in seen:
+            continue
+        seen.add(i)
+        if x.decl().kind() == z3.Z3_OP_MUL:
+            nn = [c for c in x.children() if not z3.is_int_value(c)]
+            if len(nn) >= 2:
+                for c in nn:
+                    if z3.is_const(c) and c.decl().kind() == z3.Z3_OP_UNINTERPRETED:
+                        out[c.get_id()] = c
+        stack.extend(x.children())
+    return list(out.values())
 
 
 def _has_quant(f):
@@ -185,65 +226,69 @@ def _model_dict(m, watch, goal):
     return out
 
 
+def _check(formulas, timeout_ms, mbqi=None):
+    s = z3.Solver()
+    s.set("timeout", int(timeout_ms))
+    if mbqi is not None:
+        s.set("smt.mbqi", mbqi)
+    for f in formulas:
+        s.add(f)
+    return s.check(), s
+
+
 def discharge(hyps, goal, watch, timeout_ms=TIMEOUT_MS):
     t0 = time.time()
+    be = "z3-%s" % z3.get_version_string()
+
+    def done(status, **kw):
+        kw.update(status=status, time_s=round(time.time() - t0, 4))
+        kw.setdefault("backend", be)
+        return kw
     g = z3.simplify(goal)
     if z3.is_true(g):
-        return {"status": "discharged", "backend": "simplify", "time_s": 0.0}
-    extra = psum_instances(list(hyps) + [goal])
-    # second round so that psum terms created by the first round get their bounds by E-matching only; no loop
-    s = z3.Solver()
-    s.set("timeout", timeout_ms)
-    if quantified_hyps(hyps) and not MBQI:
-        # E-matching only: a failing goal comes back 'unknown' at once instead of after a long model search;
-        # the definite answer then comes from the quantifier-free query below
-        s.set("smt.mbqi", False)
-    for h in hyps:
-        s.add(h)
-    for h in extra:
-        s.add(h)
-    s.add(z3.Not(goal))
-    r = s.check()
+        return done("discharged", backend="simplify")
+    hyps = list(hyps)
+    neg = z3.Not(goal)
+    quantified = quantified_hyps(hyps)
+    # 1. the proof attempt: quantified hypotheses, E-matching only (a failing goal then comes back quickly as
+    #    'unknown' instead of after a long model search), psum equations instantiated at the ground psum terms
+    r, s = _check(hyps + psum_instances(hyps + [goal]) + [neg], max(timeout_ms, PROOF_TIMEOUT_MS),
+                  mbqi=(MBQI if quantified else None))
     if r == z3.unsat:
-        return {"status": "discharged", "backend": "z3-%s" % z3.get_version_string(), "time_s": round(time.time() - t0, 4)}
-    quantified = any(_has_quant(h) for h in hyps)
-    first = str(r)
-    reason = s.reason_unknown() if r == z3.unknown else ""
-    model = None
-    if r == z3.sat:
-        model = _model_dict(s.model(), watch, goal)
-        if not quantified:
-            return {"status": "refuted", "backend": "z3-%s" % z3.get_version_string(), "time_s": round(time.time() - t0, 4),
-                    "model": model, "detail": "sat (quantifier-free query)"}
-    # quantifier-free re-run on instances: gives a definite model
-    inst = _instantiate(list(hyps), goal)
-    extra2 = psum_instances(inst + [goal])
-    s2 = z3.Solver()
-    s2.set("timeout", timeout_ms)
-    for h in inst + extra2:
-        s2.add(h)
-    s2.add(z3.Not(goal))
-    r2 = s2.check()
-    dt = round(time.time() - t0, 4)
-    if r2 == z3.unsat:
-        return {"status": "discharged", "backend": "z3-%s/instantiated" % z3.get_version_string(), "time_s": dt}
-    if r2 == z3.sat:
-        m2 = _model_dict(s2.model(), watch, goal)
-        if r == z3.sat:
-            return {"status": "refuted", "backend": "z3-%s" % z3.get_version_string(), "time_s": dt, "model": model,
-                    "detail": "sat with quantified hypotheses (MBQI model) and sat on the instantiated query"}
-        return {"status": "refuted", "backend": "z3-%s/instantiated" % z3.get_version_string(), "time_s": dt, "model": m2,
-                "detail": "quantified query: %s %s; quantifier-free query over the instances of the hypotheses at the "
-                          "occurring index terms: sat (candidate counter-model)" % (first, reason)}
-    try:
-        cand = _model_dict(s.model(), watch, goal) if r == z3.unknown else model
-    except Exception:
-        cand = model
-    return {"status": "open", "backend": "z3-%s" % z3.get_version_string(), "time_s": dt, "model": cand,
-            "detail": "quantified query: %s %s; instantiated query: %s %s" % (first, reason, r2, s2.reason_unknown() if r2 == z3.unknown else "")}
+        return done("discharged")
+    if r == z3.sat and not quantified:
+        return done("refuted", model=_model_dict(s.model(), watch, goal), detail="sat (quantifier-free query)")
+    first = "%s %s" % (r, s.reason_unknown() if r == z3.unknown else "")
+    # 2. model search on the quantifier-free query made of the instances of the hypotheses.  Products of two
+    #    unknowns make z3's search for a model slow, so the factors are first pinned to small values (a model found
+    #    that way is a model all the same).
+    inst = _instantiate(hyps, goal) if quantified else hyps
+    base = inst + psum_instances(inst + [goal]) + [neg]
+    factors = nonlinear_factors(base)[:3]
+    tries = []
+    if factors:
+        import itertools
+        for vals in itertools.product((1, 2, 3), repeat=len(factors)):
+            tries.append([f == v for f, v in zip(factors, vals)])
+        tries = sorted(tries, key=lambda t: sum(c.arg(1).as_long() for c in t))[:9]
+    tries.append([])
+    last = None
+    for extra in tries:
+        r2, s2 = _check(base + extra, min(timeout_ms, 6000) if extra else timeout_ms)
+        last = (r2, s2)
+        if r2 == z3.sat:
+            return done("refuted", backend=be + ("/instantiated" if quantified else ""),
+                        model=_model_dict(s2.model(), watch, goal),
+                        detail="proof attempt with quantified hypotheses: %s; the quantifier-free query over the instances of "
+                               "the hypotheses at the occurring index terms is sat: candidate counter-model" % first)
+        if r2 == z3.unsat and not extra:
+            return done("discharged", backend=be + "/instantiated")
+    r2, s2 = last
+    return done("open", model=None, detail="proof attempt: %s; instantiated query: %s %s" % (
+        first, r2, s2.reason_unknown() if r2 == z3.unknown else ""))
 
 
-def satisfiable(hyps, timeout_ms=1500):
+def satisfiable(hyps, timeout_ms=700):
     """vacuity canary: 'unsat' means the context is contradictory (every goal would be discharged vacuously)"""
     s = z3.Solver()
     s.set("timeout", timeout_ms)
